@@ -175,6 +175,10 @@ func genCase(t *rapid.T) Case {
 	default: // pt-ls2
 		k := uint(rapid.IntRange(1, 20).Draw(t, "k"))
 		n := rapid.IntRange(1, 10).Draw(t, "n")
+		class := "polyline"
+		if rapid.IntRange(0, 29).Draw(t, "long") == 0 {
+			n, class = rapid.IntRange(60, 300).Draw(t, "nlong"), "polyline-long"
+		}
 		p := [][3]int64{pt(t, 1<<k, "p")}
 		for i := 0; i < n; i++ {
 			q := pt(t, 1<<k, "v")
@@ -186,7 +190,7 @@ func genCase(t *rapid.T) Case {
 		if rapid.IntRange(0, 3).Draw(t, "on") == 0 {
 			p[0] = p[1+rapid.IntRange(0, n-1).Draw(t, "which")]
 		}
-		return Case{Fn: fn, Class: "polyline", P: p, Stride: rapid.IntRange(2, 5).Draw(t, "stride")}
+		return Case{Fn: fn, Class: class, P: p, Stride: rapid.IntRange(2, 5).Draw(t, "stride")}
 	}
 }
 
